@@ -319,11 +319,19 @@ def run_C14(res):
         if k < 0.45:
             lim = ("depth", rnd.choice([1, 2, 3] if res.tier == "quick" else [1, 2, 3, 4, 5]))
         elif k < 0.8:
-            lim = ("nodes", rnd.choice([1, 20, 100, 500, 3000]))
+            lim = ("nodes", rnd.choice([0, 1, 20, 100, 500, 3000]))
         else:
-            lim = ("movetime", rnd.choice([1, 5, 15]))
+            lim = ("movetime", rnd.choice([0, 0, 1, 5, 15]))
         lims.append(lim)
         reqs.append(f"root {p} {hist_str(h)} 1 {lim[0]} {lim[1]}")
+    # roots in check (the check extension raises the local depth at the root) under every kind of limit incl. zero budgets
+    chk = run_hx_par(["check " + p for p, _ in roots])
+    for (p, h), c in zip(roots, chk):
+        if c.split()[0] == "1":
+            for lim in (("movetime", 0), ("nodes", 0), ("depth", 1), ("depth", 2)):
+                lims.append(lim)
+                reqs.append(f"root {p} {hist_str(h)} 1 {lim[0]} {lim[1]}")
+                res.count("in_check_roots_x_limits")
     # node limits exactly at (and next to) the cumulative node count at the end of an iteration: the boundary of the node rule
     probe = roots[: (25 if res.tier == "quick" else 400)]
     pr_out = run_hx_par([f"root {p} {hist_str(h)} 1 depth 4" for p, h in probe])
